@@ -48,11 +48,15 @@ class C06(Check):
             "5 conf at minconf 6, coinbase at 99 conf, other account, other key scope, reorganised out, coinbase reorganised out} x "
             "{explicit selection next to a good output, SendOutputsWithInput, automatic selection that could only succeed by using it}; the good side of every "
             "boundary (2/6/100 confirmations, lease expired at its deadline, released, unlocked); duplicate / unknown / filtered explicit outpoints; successive sends, "
-            "rejected broadcast, created-but-unpublished, FundPsbt with caller inputs (valid, duplicate, unknown, leased, locked, spent). "
+            "rejected broadcast, created-but-unpublished, FundPsbt with caller inputs (valid, duplicate, unknown, leased, locked, spent); "
+            "minconf above the coinbase maturity (101/105/150 with a coinbase output at 100..minconf-1 confirmations, automatic and explicit, and the reached side); "
+            "leases and locks on still unconfirmed outputs followed by minconf-0 requests; two unconfirmed transactions spending the same wallet output with one of "
+            "them forgotten (Wallet.RemoveDescendants, or the wallet's own transaction published late and rejected) or one of them confirmed. "
             "random: histories of 18-42 (thorough: -70) operations over accounts 0..2 of all four scopes: receipts (1-4 outputs, dust-size to 5 BTC, external/internal "
-            "branch, confirmed or unconfirmed), coinbase receipts brought to 99/100/101 confirmations, blocks including all/none/half of the pending transactions, "
-            "reorganisations (depth 1; deeper only when the wallet can detach two blocks in a row), third-party spends of wallet outputs, LockOutpoint/UnlockOutpoint, "
-            "LeaseOutput/ReleaseOutput with a test clock, and requests with minconf in {0,1,2,6}, 5 fee rates, both strategies or none, 1-3 outputs "
+            "branch, confirmed or unconfirmed), coinbase receipts brought to 99/100/101 and up to 151 confirmations, blocks including all/none/half of the pending transactions, "
+            "reorganisations (depth 1; deeper only when the wallet can detach two blocks in a row), third-party spends of wallet outputs (also of outputs that only unconfirmed transactions spend: double-spend pairs), forgetting an unconfirmed "
+            "transaction, late publication (accepted / rejected) of transactions created earlier, LockOutpoint/UnlockOutpoint, "
+            "LeaseOutput/ReleaseOutput with a test clock, and requests with minconf in {0,1,2,6,101,105,150}, 5 fee rates, both strategies or none, 1-3 outputs "
             "(5 external script kinds or own addresses) sized 5%..120% of the eligible total, explicit selections (valid, duplicate, unknown, spent, locked, "
             "leased, immature, below minconf, foreign), UTXO filters, dry runs, publication through the backend (accepted or rejected). "
             "Oracle per created transaction: the harness' own ledger (BIP32 derivation of every wallet script from the seed, the notifications it delivered, "
